@@ -170,7 +170,7 @@ def device_bits(wd):
     src = os.path.join(wd, "devices.cpp")
     open(src, "w").write(DEV_DRIVER)
     bc = C.emit_ir(src, src[:-4] + ".bc", defs=C.IO_DEFS)
-    d = C.irdump(bc, src[:-4] + ".json", keep=["_device<.*>::read\\(unsigned char\\*, unsigned long\\)", "_device<.*>::write\\(unsigned char const\\*, unsigned long\\)", "io_error"])
+    d = C.irdump(bc, src[:-4] + ".json", keep=["_device<.*>::read\\(unsigned char\\*, unsigned long\\)", "_device<.*>::write(<unsigned char>)?\\(unsigned char const\\*, unsigned long\\)", "io_error"])
     out = {}
     for f in d["functions"]:
         if not f["is_root"]:
@@ -180,7 +180,7 @@ def device_bits(wd):
         orig = it.step
 
         def step(inst, bid, reach, rets, it=it, snaps=snaps, orig=orig):
-            if inst["op"] in ("call", "invoke") and "::write(unsigned char const*" in inst.get("callee_dem", ""):
+            if inst["op"] in ("call", "invoke") and re.search(r"::write(<unsigned char>)?\(unsigned char const\*", inst.get("callee_dem", "")):
                 # snapshot of the local buffer handed to the raw write
                 args = [it.value_any(o) for o in inst["ops"][:inst["nargs"]]]
                 root, c = it.split_addr(args[1])
